@@ -560,6 +560,16 @@ pub(crate) fn for_each_block_untyped<
             // this is usually BLOCK_SIZE_Y, but might be less for the last block
             let pixel_rows = block_size_y.min(size.height - block_y * block_size_y);
 
+            #[cfg(dds_verif)]
+            crate::verif_hooks::block_event(&[
+                0,
+                0,
+                pixel_rows as usize,
+                (block_y * block_size_y) as usize * row_pitch,
+                native_color.bytes_per_pixel() as usize,
+                (native_color.channels != image.color().channels) as usize,
+            ]);
+
             let buf = image.get_row_range((block_y * block_size_y) as usize, pixel_rows as usize);
 
             let range = PixelRange {
@@ -692,6 +702,16 @@ pub(crate) fn for_each_block_rect_untyped<
                 rows,
             };
 
+            #[cfg(dds_verif)]
+            crate::verif_hooks::block_event(&[
+                0,
+                rows.start as usize,
+                rows.end as usize,
+                pixel_row * image.row_pitch(),
+                native_color.bytes_per_pixel() as usize,
+                (native_color.channels != image.color.channels) as usize,
+            ]);
+
             let row_pitch = image.row_pitch();
             let out = &mut image.data()[pixel_row * row_pitch..];
 
@@ -793,8 +813,24 @@ impl ChannelConversionBuffer {
         mut range: PixelRange,
         f: ProcessBlocksFn,
     ) {
+        #[cfg(dds_verif)]
+        let verif_base = (encoded_blocks.as_ptr() as usize, out.as_ptr() as usize);
+        #[cfg(dds_verif)]
+        let verif_call = |encoded: &[u8], out: &[u8], width: u32, width_offset: u8| {
+            crate::verif_hooks::block_event(&[
+                1,
+                encoded.as_ptr() as usize - verif_base.0,
+                encoded.len(),
+                width as usize,
+                width_offset as usize,
+                out.as_ptr() as usize - verif_base.1,
+            ]);
+        };
+
         // fast path: no conversion needed
         if self.native_color.channels == self.target {
+            #[cfg(dds_verif)]
+            verif_call(encoded_blocks, out, range.width, range.width_offset);
             f(encoded_blocks, out, row_pitch, range);
             return;
         }
@@ -819,6 +855,14 @@ impl ChannelConversionBuffer {
 
             let buffer_stride = offset_width as usize * buffer_bytes_per_pixel;
             let buffer = &mut buffer[..buffer_stride * height];
+
+            #[cfg(dds_verif)]
+            verif_call(
+                &encoded_blocks[..block_bytes],
+                out,
+                offset_width,
+                range.width_offset,
+            );
 
             // decode into the temporary buffer
             f(
@@ -862,6 +906,9 @@ impl ChannelConversionBuffer {
 
             let buffer_stride = chunk_size as usize * buffer_bytes_per_pixel;
             let buffer_chunk = &mut buffer[..buffer_stride * height];
+
+            #[cfg(dds_verif)]
+            verif_call(encoded_chunk, out_chunk, chunk_size, 0);
 
             // decode into the temporary buffer
             f(
